@@ -194,6 +194,9 @@ class Rec:
             if 'promoted' in k:
                 return ('promoted', k['uneval'], k['promoted'])
             if 'uneval' in k:
+                ce = const_expr(k['uneval'])
+                if ce is not None:
+                    return ce
                 return ('kc', short_const(k['uneval']), k.get('ty'))
             return ('kc', k.get('text'), k.get('ty'))
         return ('?',)
@@ -359,6 +362,38 @@ def stores(fn, rec=None):
             out.append({'block': bi, 'idx': 'term', 'target': ('deref', rb.operand(t['args'][0])), 'value': rb.operand(t['args'][1]),
                         'span': t.get('span'), 'via': 'mem::replace'})
     return out
+
+
+CONST_DB = None        # set by lm.db.load: the fact base, for the initialisers of workspace constants
+
+
+_CONST_NEST = [0]
+
+
+def const_expr(path):
+    """Expression abbreviated by a workspace constant with an integer / boolean initialiser (`const KNOWN: usize = A::K::USIZE - 1`): the
+    recovered initialiser, or None (not a workspace constant, not a scalar, or not a single-path body)."""
+    db = CONST_DB
+    if db is None or _CONST_NEST[0] > 3:
+        return None
+    g = db.fns.get(path)
+    if g is None or not str(g.kind).startswith(('Const', 'AssocConst')) or g.promoted_of:
+        return None
+    ty = g.locals[0].get('ty') if g.locals else None
+    if ty not in ('usize', 'u8', 'u16', 'u32', 'u64', 'isize', 'i8', 'i16', 'i32', 'i64', 'bool'):
+        return None
+    d = g.defs().get(0, [])
+    if len(d) != 1 or len(g.exits()) != 1:
+        return None
+    bi, si, x = d[0]
+    R = Rec(g)
+    _CONST_NEST[0] += 1
+    try:
+        return R.call(x) if si == 'term' else R.rvalue(x)
+    except Exception:
+        return None
+    finally:
+        _CONST_NEST[0] -= 1
 
 
 def short_const(p):
